@@ -18,6 +18,11 @@ With a fraction < 1 the selected matches are the ones the call drew (random.samp
 having drawn a selection, the property is evaluated over EVERY selection of an admissible size (fraction x found, rounded
 to a nearest integer) by brute force: the overlap error is wrong if no such selection contains two matches removing the
 same atom, a returned structure is wrong if every such selection does; anything in between is counted as ambiguous.
+Thin-cell cases carry the occurrences of the search pattern BY CONSTRUCTION (sets of distinct atoms, confirmed by an own
+brute-force enumeration when the case is generated).  When the matches the call worked on are not these, the property is
+evaluated on the true occurrences (`by_construction`): no overlap error when no two occurrences have an atom in common
+(or ignored / empty replacement), every input atom at most once and every atom outside the occurrences exactly once in a
+returned structure, atom counts N + k x (|replacement| - |search|) for an admissible k.
 Tie: the same call through the Lean model `replaceCore` on the matches the code used: same outcome (structure / overlap
 error) and, on success, the same canonical structure (positions within 1e-7)."""
 import itertools
@@ -32,7 +37,7 @@ from . import c04
 
 RULE = ("pattern copies sharing atoms: hetero chains A-B-A-B-.. with unequal / equal spacings (2-4 copies), homonuclear chains "
         "(2-4 copies, neighbours share two atoms), stars of 2-4 two- or three-atom arms on a common centre, two triangles "
-        "on a common edge, a 4-ring, a chain that closes on itself THROUGH the periodic boundary (cell edge = chain period; 2-4 copies), disjoint copies; random rigid pose and origin (also across cell faces) in "
+        "on a common edge, a 4-ring, a chain that closes on itself THROUGH the periodic boundary (cell edge = chain period; 2-4 copies), disjoint copies; THIN cells - one lattice vector as long (exactly or to within 1/64 A) as the distance between two same-element atoms of the search pattern, so that an atom and its own periodic image are a pattern distance apart: pattern A-A (1-3 occurrences as a chain sharing atoms or as pairs apart) or a right-angled A,A,B (one, two apart, or a fan of two on a common corner), planted in the plane perpendicular to the thin vector, orthorhombic (any axis) / LAMMPS-triclinic, occurrences known by construction and confirmed by brute force over distinct atoms at 0.25 A; random rigid pose and origin (also across cell faces) in "
         "orthorhombic / triclinic / rotated cells, bystander atoms; replacement: every subset of search atoms retained, "
         "the others dropped, swapped for another element, or kept as the same element NUDGED by 1e-4..0.03 A (not shared by the "
         "documented 1e-5 A rule although within the search tolerance), optional extra atom, EMPTY replacement (plain Atoms(); the search pattern with every atom deleted; zero atoms + type tables; "
@@ -116,8 +121,150 @@ def template(rng, kind, ncopies):
     raise ValueError(kind)
 
 
-KINDS = ["chain", "chain_sym", "homo", "star2", "star3", "edge", "ring", "disjoint", "ring_pbc"]
-MAXCOPIES = {"chain": 4, "chain_sym": 4, "homo": 4, "star2": 4, "star3": 4, "edge": 2, "ring": 2, "disjoint": 3, "ring_pbc": 4}
+KINDS = ["chain", "chain_sym", "homo", "star2", "star3", "edge", "ring", "disjoint", "ring_pbc", "thin_pair", "thin_L"]
+MAXCOPIES = {"chain": 4, "chain_sym": 4, "homo": 4, "star2": 4, "star3": 4, "edge": 2, "ring": 2, "disjoint": 3, "ring_pbc": 4,
+             "thin_pair": 3, "thin_L": 2}
+MINCOPIES = {"thin_pair": 1, "thin_L": 1}
+THIN = ("thin_pair", "thin_L")
+
+
+def npat_of(kind):
+    return 2 if kind in ("star2", "thin_pair") else 3
+
+
+# ------------------------------------------------------------------ thin cells: a lattice vector as long as the pattern
+
+def occurrences_by_brute_force(elems, pos, cell, pel, ppos, tol):
+    """independent enumeration: the sets of DISTINCT structure atoms (each in whichever periodic image) whose mutual
+    distances equal the pattern's within `tol`, pattern atom by pattern atom with matching elements.  An atom and its
+    own periodic image are one and the same structure atom, so they never stand for two pattern atoms.  (Distances
+    alone decide only for planar patterns - the thin-cell patterns are planar.)"""
+    pos = np.array(pos, dtype=float)
+    cell = np.array(cell, dtype=float)
+    n, k = len(elems), len(pel)
+    P = np.array([[float(x) for x in q] for q in ppos])
+    pd = np.linalg.norm(P[:, None, :] - P[None, :, :], axis=2)
+    sh = np.array(list(itertools.product(range(-2, 3), repeat=3)), dtype=float).dot(cell)
+    allpos = (pos[None, :, :] + sh[:, None, :]).reshape(-1, 3)
+    allidx = np.tile(np.arange(n), len(sh))
+    allel = np.array(list(elems) * len(sh))
+    found = set()
+    for a in range(n):
+        if elems[a] != pel[0]:
+            continue
+        partial = [([a], [pos[a]])]
+        for i in range(1, k):
+            nxt = []
+            for idx, pts in partial:
+                ok = (allel == pel[i]) & ~np.isin(allidx, idx)
+                for j, q in enumerate(pts):
+                    ok &= np.abs(np.linalg.norm(allpos - q, axis=1) - pd[i, j]) <= tol
+                for c in np.nonzero(ok)[0]:
+                    nxt.append((idx + [int(allidx[c])], pts + [allpos[c]]))
+            partial = nxt
+        for idx, _ in partial:
+            found.add(tuple(sorted(idx)))
+    return found
+
+
+PYTH = [(F(1), F(0)), (F(0), F(1)), (F(3, 5), F(4, 5)), (F(4, 5), F(3, 5)), (F(5, 13), F(12, 13)), (F(12, 13), F(5, 13)),
+        (F(8, 17), F(15, 17)), (F(7, 25), F(24, 25))]
+
+
+def build_thin(rng, kind, ncopies, cell_kind=None):
+    """a THIN periodic cell: one lattice vector is as long (exactly, or to within 1/64 A - less than any search
+    tolerance used) as the distance D between two SAME-ELEMENT atoms of the search pattern, so every such atom of the
+    structure has a periodic image of itself at a pattern distance.  The occurrences are planted in the plane
+    perpendicular to the thin lattice vector:
+      thin_pair : pattern A-A (D apart); 1-3 occurrences as a straight chain of 2-4 atoms (neighbouring occurrences share
+                  an atom) or as pairs lying apart, each with its own in-plane direction;
+      thin_L    : pattern A, A (D apart), B (at a right angle, h from the first A); one occurrence, two lying apart, or
+                  a fan of two that share the corner A and the B.
+    The occurrences are known by construction (`truth`: their atom sets) and CONFIRMED by an independent brute-force
+    enumeration at a tolerance of 0.25 A (> 2 x the largest search tolerance): exactly these sets of distinct atoms, and
+    no other, have the pattern's distances."""
+    for attempt in range(200):
+        A, B = rng.sample(["C", "N", "O", "S", "P"], 2)
+        D = F(rng.randint(9, 32), 8)                 # 1.125 .. 4 A
+        h = _d(rng)
+        thin = D + rng.choice([F(0), F(0), F(0), F(1, 128), F(-1, 128), F(1, 64), F(-1, 64)])
+        if kind == "thin_pair":
+            pat = ([A, A], [(F(0), F(0), F(0)), (D, F(0), F(0))])
+            layout = "chain" if (ncopies > 1 and rng.random() < 0.6) else "apart"
+        else:
+            pat = ([A, A, B], [(F(0), F(0), F(0)), (D, F(0), F(0)), (F(0), h, F(0))])
+            layout = "fan" if (ncopies == 2 and rng.random() < 0.5) else "apart"
+        els, pq, truth = [], [], []                   # in-plane coordinates (p, q)
+        gap = float(D) + float(h) + rng.randint(24, 40) / 8.0
+        if layout == "chain":
+            c, s = rng.choice(PYTH)
+            sg = rng.choice([1, -1])
+            for i in range(ncopies + 1):
+                els.append(A)
+                pq.append((float(D * i * c), float(D * i * s * sg)))
+            truth = [[i, i + 1] for i in range(ncopies)]
+        elif layout == "fan":
+            c, s = rng.choice(PYTH)
+            sg = rng.choice([1, -1])
+            u, v = (float(c), float(s * sg)), (float(-s * sg), float(c))
+            m = rng.choice([1, -1])
+            els += [A, A, A, B]
+            pq += [(0.0, 0.0), (float(D) * u[0], float(D) * u[1]), (-float(D) * u[0], -float(D) * u[1]),
+                   (m * float(h) * v[0], m * float(h) * v[1])]
+            truth = [[0, 1, 3], [0, 2, 3]]
+        else:
+            for k in range(ncopies):
+                c, s = rng.choice(PYTH)
+                sg = rng.choice([1, -1])
+                u, v = (float(c), float(s * sg)), (float(-s * sg), float(c))
+                o = (gap * k, rng.randint(-8, 8) / 8.0)
+                b0 = len(els)
+                els += [A, A]
+                pq += [o, (o[0] + float(D) * u[0], o[1] + float(D) * u[1])]
+                if kind == "thin_L":
+                    m = rng.choice([1, -1])
+                    els.append(B)
+                    pq.append((o[0] + m * float(h) * v[0], o[1] + m * float(h) * v[1]))
+                truth.append(list(range(b0, len(els))))
+        ext_p = max(x[0] for x in pq) - min(x[0] for x in pq)
+        ext_q = max(x[1] for x in pq) - min(x[1] for x in pq)
+        eb, ec = ext_p + rng.randint(40, 64) / 8.0, ext_q + rng.randint(40, 64) / 8.0
+        ck = cell_kind if cell_kind in ("ortho", "tri+", "tri-") else rng.choice(["ortho", "ortho", "tri+", "tri-"])
+        if ck == "ortho":
+            axis = rng.randrange(3)
+            edges = [eb, ec]
+            edges.insert(axis, float(thin))
+            cellf = np.diag(edges)
+        else:
+            axis = 0
+            sg = 1.0 if ck == "tri+" else -1.0
+            t = lambda: sg * rng.randint(2, 16) / 8.0
+            cellf = np.array([[float(thin), 0, 0], [t(), eb, 0], [t(), rng.choice([1, -1]) * t(), ec]])
+        cinv = np.linalg.inv(cellf)
+        origin = np.array([rng.choice([0.0, 0.01, 0.5, 0.99]) if rng.random() < 0.4 else rng.random() for _ in range(3)]).dot(cellf)
+        inplane = [i for i in range(3) if i != axis]
+        pos = []
+        for (a, b) in pq:
+            v = np.zeros(3)
+            v[inplane[0]], v[inplane[1]] = a, b
+            fr = (v + origin).dot(cinv) % 1.0
+            fr[fr >= 1.0] = 0.0
+            pos.append(fr.dot(cellf))
+        els = list(els)
+        for _ in range(rng.randint(0, 2)):
+            for att in range(40):
+                v = np.array([rng.random() for _ in range(3)]).dot(cellf)
+                if all(np.linalg.norm(((v - qpt).dot(cinv) - np.round((v - qpt).dot(cinv))).dot(cellf)) >= 3.2 for qpt in pos):
+                    els.append(rng.choice(["F", "Cl", "Br"]))
+                    pos.append(v)
+                    break
+        want = set(tuple(sorted(t)) for t in truth)
+        if occurrences_by_brute_force(els, pos, cellf, pat[0], pat[1], 0.25) != want:
+            continue
+        return {"elems": els, "pos": [[float(x) for x in v] for v in pos], "cell": [[float(v) for v in row] for row in cellf],
+                "pattern": pat, "truth": sorted(sorted(t) for t in truth), "layout": layout,
+                "thin": {"lattice_vector": axis, "length": float(thin), "pattern_distance": float(D)}}
+    raise RuntimeError("harness: no thin-cell structure with confirmed occurrences in 200 attempts")
 
 
 def build_ring_pbc(rng, els, pts, pat, ncopies, cell_kind=None):
@@ -158,6 +305,8 @@ def build_ring_pbc(rng, els, pts, pat, ncopies, cell_kind=None):
 
 def build(rng, kind, ncopies, cell_kind=None, pose=None):
     """place the template rigidly in a periodic cell, add bystanders. Returns dict(elems, pos, cell, pattern)"""
+    if kind in THIN:
+        return build_thin(rng, kind, ncopies, cell_kind)
     els, pts, pat = template(rng, kind, ncopies)
     if kind == "ring_pbc":
         return build_ring_pbc(rng, els, pts, pat, ncopies, cell_kind)
@@ -247,7 +396,7 @@ def fraction_below_one(rng, ncopies):
 def make_case(rng, kind=None, ncopies=None, retain=None, other=None, extra=None, replace_all=None, ignore=None, f=None,
               empty=None, cell_kind=None):
     kind = kind or rng.choice(KINDS)
-    ncopies = ncopies or rng.randint(2, MAXCOPIES[kind])
+    ncopies = ncopies or rng.randint(MINCOPIES.get(kind, 2), MAXCOPIES[kind])
     st = build(rng, kind, ncopies, cell_kind=cell_kind)
     pe, pp = st["pattern"]
     if retain is None:
@@ -272,12 +421,17 @@ def make_case(rng, kind=None, ncopies=None, retain=None, other=None, extra=None,
         rj, rj_src, ekind = g.empty_replacement(rng, pj, empty if isinstance(empty, str) else None)
     if f is None:
         f = 1.0 if rng.random() < 0.8 else fraction_below_one(rng, ncopies)
-    return {"op": "replace-c07", "sj": sj, "pj": pj, "rj": rj, "atol": rng.choice([0.05, 0.05, 0.05, 0.02, 0.1]), "f": f,
-            "return_num": bool(rng.random() >= 0.15), "rj_src": rj_src, "np_args": bool(rng.random() < 0.25),
-            "replace_all": bool(rng.random() < 0.3 if replace_all is None else replace_all),
-            "ignore": bool(rng.random() < 0.4 if ignore is None else ignore), "seed": rng.randrange(1 << 30),
-            "info": {"kind": kind, "copies": ncopies, "retain": sorted(retain), "other": other, "extra": bool(extra),
-                     "r_atoms": len(relems), "empty_kind": ekind}}
+    inp = {"op": "replace-c07", "sj": sj, "pj": pj, "rj": rj, "atol": rng.choice([0.05, 0.05, 0.05, 0.02, 0.1]), "f": f,
+           "return_num": bool(rng.random() >= 0.15), "rj_src": rj_src, "np_args": bool(rng.random() < 0.25),
+           "replace_all": bool(rng.random() < 0.3 if replace_all is None else replace_all),
+           "ignore": bool(rng.random() < 0.4 if ignore is None else ignore), "seed": rng.randrange(1 << 30),
+           "info": {"kind": kind, "copies": ncopies, "retain": sorted(retain), "other": other, "extra": bool(extra),
+                    "r_atoms": len(relems), "empty_kind": ekind}}
+    if "truth" in st:
+        # the occurrences of the search pattern in the structure, by construction (atom sets; confirmed by brute force)
+        inp["truth"] = st["truth"]
+        inp["info"].update(layout=st["layout"], thin=st["thin"])
+    return inp
 
 
 # ------------------------------------------------------------------ the property on the real result
@@ -332,6 +486,97 @@ def unobserved_selection(inp, out, found, shared, r_empty):
     return "ambiguous"
 
 
+def by_construction(inp, out, found, shared, r_empty):
+    """The occurrences of the search pattern in the structure are known BY CONSTRUCTION (inp["truth"]: sets of distinct
+    atoms, confirmed by brute force when the case was generated), and the matches the call worked on are not these.
+    The property is then evaluated on the true occurrences, using only what does not depend on how a symmetric pattern
+    is laid onto an occurrence:
+      * the selected matches are `k` of the true occurrences (k = all, or fraction x number rounded to a nearest
+        integer); when no two occurrences have an atom in common no atom can be removed twice, so the overlap error
+        must not be raised (nor when the caller ignores double removals or the replacement is empty);
+      * in a returned structure every atom of the input appears at most once, and every atom that belongs to NO
+        occurrence exactly once;
+      * when no two occurrences have an atom in common, each selected occurrence loses its atoms that are only in the
+        search pattern and receives the atoms only in the replacement: the atom count is N + k x (|replacement| -
+        |search|), and of the atoms of the occurrences exactly (n - k) x |search| + k x (atoms common to both patterns)
+        are left; a reported match count is such a k.
+    Anything else stays undecided (None: the outcome is compatible with the true occurrences)."""
+    sj = inp["sj"]
+    T = [frozenset(t) for t in inp["truth"]]
+    n, N = len(T), len(sj["atoms"])
+    npat, nrel = len(inp["pj"]["atoms"]), len(inp["rj"]["atoms"])
+    disjoint = all(not (T[i] & T[j]) for i in range(n) for j in range(i + 1, n))
+    sizes = [n] if inp["f"] >= 1.0 else admissible_sizes(inp["f"], n)
+    n_sh = 0 if (inp["replace_all"] or r_empty) else len(shared)
+    obs = {"occurrences_in_the_structure_by_construction": [sorted(t) for t in T], "matches_the_call_worked_on": found,
+           "thin_cell": inp["info"].get("thin"), "fraction": inp["f"], "ignore": inp["ignore"], "replace_all": inp["replace_all"],
+           "outcome": "structure" if "ok" in out else out.get("err")}
+    head = ("the structure holds exactly %d occurrence(s) of the search pattern (sets of distinct atoms %s; an atom and its own "
+            "periodic image are one atom), " % (n, [sorted(t) for t in T]))
+    # occurrences that DO share atoms: what each removes is known whatever the laying-on when the patterns have no atom in
+    # common (every atom of the occurrence goes) or the whole search pattern is retained (none goes)
+    dall = [set(t) for t in T] if n_sh == 0 else [set() for _ in T] if n_sh == npat else None
+    some_overlap = some_clean = None
+    if dall is not None:
+        some_overlap = some_clean = False
+        for k in sizes:
+            for sub in itertools.combinations(range(n), k):
+                ov = any(dall[i] & dall[j] for x, i in enumerate(sub) for j in sub[x + 1:])
+                some_overlap, some_clean = some_overlap or ov, some_clean or not ov
+    if "ok" not in out:
+        what = "the overlap error" if out.get("err") == "overlap" else str(out.get("err"))
+        if r_empty:
+            return head + "the replacement is empty, yet the replacement raised " + what, obs
+        if inp["ignore"]:
+            return head + "the caller asked to ignore double removals, yet the replacement raised " + what, obs
+        if disjoint:
+            return head + "no two of them have an atom in common, so no atom would be removed twice, yet the replacement raised " + what, obs
+        if some_overlap is False:
+            return head + "no selection of %s of them contains two that remove the same atom, yet the replacement raised %s" % (
+                " or ".join(str(k) for k in sizes), what), obs
+        return None
+    if some_clean is False and not inp["ignore"] and not r_empty:
+        return head + ("every selection of %s of them contains two that remove the same atom, yet a structure was returned instead of "
+                       "the overlap error" % " or ".join(str(k) for k in sizes)), obs
+    res = out["ok"]
+    count = {}
+    for a in res["atoms"]:
+        count[a["q"]] = count.get(a["q"], 0) + 1
+    inside = set().union(*T) if T else set()
+    left = 0
+    for i, a in enumerate(sj["atoms"]):
+        c = count.get(a["q"], 0)
+        if c > 1:
+            return head + "and atom %d of the input appears %d times in the result" % (i, c), dict(obs, atom=i)
+        if i not in inside and c != 1:
+            return head + "atom %d belongs to none of them, yet it is missing from the result" % i, dict(obs, atom=i)
+        left += c if i in inside else 0
+    if dall is not None and inp["f"] >= 1.0:
+        removed = set().union(*dall) if dall else set()
+        for i, a in enumerate(sj["atoms"]):
+            if count.get(a["q"], 0) != (0 if i in removed else 1):
+                return head + "all selected; atom %d %s" % (i, "is removed by one of them, yet it is still in the result" if i in removed
+                                                          else "is removed by none of them, yet it is missing from the result"), dict(obs, atom=i)
+        if len(res["atoms"]) != N - len(removed) + n * (nrel - n_sh):
+            return head + "all selected: the atom count is not N - |removed| + M x (atoms only in the replacement)", dict(
+                obs, got=len(res["atoms"]), want=N - len(removed) + n * (nrel - n_sh))
+    if disjoint:
+        want = sorted(set(N + k * (nrel - npat) for k in sizes))
+        if len(res["atoms"]) not in want:
+            return (head + "no two of them have an atom in common, so each selected occurrence loses its %d search-only atoms once "
+                    "and receives the %d replacement-only atoms once: the atom count must be N + k x (|replacement| - |search|) "
+                    "with k = %s selected" % (npat - n_sh, nrel - n_sh, " or ".join(str(k) for k in sizes)),
+                    dict(obs, got=len(res["atoms"]), want=want))
+        want_left = sorted(set((n - k) * npat + k * n_sh for k in sizes))
+        if left not in want_left:
+            return (head + "no two of them have an atom in common: of their atoms, the ones of the selected occurrences that are "
+                    "only in the search pattern must be gone exactly once and all others still there",
+                    dict(obs, atoms_of_the_occurrences_left=left, want=want_left))
+        if inp.get("return_num", True) and out.get("n") is not None and out["n"] not in sizes:
+            return head + "yet the reported number of replaced matches is %s" % out["n"], dict(obs, reported=out["n"], want=sizes)
+    return None
+
+
 def oracle_overlap(inp, out):
     """None | (text, observed) | "ambiguous" """
     sj, pj, rj = inp["sj"], inp["pj"], inp["rj"]
@@ -341,6 +586,8 @@ def oracle_overlap(inp, out):
     pel, rel = c04.elems_of(pj), c04.elems_of(rj)
     shared = g.shared_pairs(rel, [a["pos"] for a in rj["atoms"]], pel, [a["pos"] for a in pj["atoms"]])
     r_empty = not rel
+    if inp.get("truth") is not None and sorted(tuple(sorted(t)) for t in found) != sorted(tuple(t) for t in inp["truth"]):
+        return by_construction(inp, out, found, shared, r_empty)
     if inp["f"] < 1.0 and out.get("sample") is None:
         return unobserved_selection(inp, out, found, shared, r_empty)
     used = [tuple(u["idx"]) for u in out["used"]]
@@ -485,7 +732,7 @@ def cli_case(rng):
     LAMMPS-oriented cell, no terms, non-empty replacement, every match selected; the command line has neither the ignore
     flag nor replace-all"""
     kind = rng.choice(KINDS)
-    retain = [j for j in range(2 if kind == "star2" else 3) if rng.random() < 0.5]
+    retain = [j for j in range(npat_of(kind)) if rng.random() < 0.5]
     other = rng.choice(["drop", "swap", "nudge"])
     inp = make_case(rng, kind, rng.randint(2, min(3, MAXCOPIES[kind])), retain, other, (not retain and other == "drop") or rng.random() < 0.3,
                     False, False, 1.0, empty=False, cell_kind=rng.choice(["ortho", "ortho", "tri+", "tri-"]))
@@ -591,7 +838,7 @@ def fraction_case(rng, kind=None, ncopies=None, f=None, ignore=None):
     they like"""
     kind = kind or rng.choice([k for k in KINDS if k != "disjoint"])
     ncopies = ncopies or rng.randint(2, MAXCOPIES[kind])
-    npat = 2 if kind == "star2" else 3
+    npat = npat_of(kind)
     retain = [j for j in range(npat) if rng.random() < 0.35]
     f = fraction_below_one(rng, ncopies) if f is None else f
     return make_case(rng, kind, ncopies, retain, None, None, rng.random() < 0.3, rng.random() < 0.2 if ignore is None else ignore, f,
@@ -602,7 +849,7 @@ def systematic(rng):
     out = []
     for kind in KINDS:
         for nc in range(2, min(3, MAXCOPIES[kind]) + 1):
-            npat = 2 if kind == "star2" else 3
+            npat = npat_of(kind)
             for r in range(npat + 1):
                 for retain in itertools.combinations(range(npat), r):
                     for other in ("drop", "swap", "nudge"):
@@ -630,6 +877,14 @@ def run(ctx, oracle_only=False, scale=1):
                 inps.append(make_case(rng, kind, 2, retain, "drop", retain == [], False, ig, 1.0))
                 inps.append(make_case(rng, kind, 3, retain, "swap", False, False, ig, 1.0))
                 inps.append(make_case(rng, kind, 2, retain, "nudge", False, False, ig, 1.0))
+    # thin cells (a lattice vector as long as the distance between two same-element pattern atoms), every run: each
+    # pattern x number of occurrences x what the replacement keeps x both flags, all matches selected
+    for kind in THIN:
+        for nc in range(1, MAXCOPIES[kind] + 1):
+            for retain in ([], [0], [1], list(range(npat_of(kind)))):
+                for ig in (False, True):
+                    inps.append(make_case(rng, kind, nc, retain, rng.choice(["drop", "swap"]), retain == [] and rng.random() < 0.5,
+                                          rng.random() < 0.25, ig, 1.0, empty=rng.random() < 0.15))
     # an EMPTY replacement of every kind on overlapping matches, both flags: never an overlap error
     for kind in ("chain", "star2", "homo", "ring", "edge"):
         for ek in ("plain", "deleted-search", "tables", "tables+coeffs"):
